@@ -742,10 +742,8 @@ Section Refine.
     assert (NY: rend (snd (query d ir name args (mkst h nx))) <> RYield) by (destruct (snd _); discriminate).
     destruct (FSpec_nexts d 0 _ _ NY k _ _ HF) as [N [hf [itf H]]].
     exists N, hf, itf. intros n Ln. split; [exact (H n Ln)|]. intros Lk.
-    pose proof (H n Ln) as Hn. apply Nat.leb_gt in Lk. rewrite Lk in Hn. destruct d as [|d].
-    - destruct k as [|k]; [apply Nat.leb_gt in Lk; lia|]. unfold m_nexts in Hn. cbn [nexts] in Hn.
-      destruct n as [|n]; [cbn in Hn; discriminate|]. unfold m_query in Hn. rewrite inext_S in Hn. inversion Hn; reflexivity.
-    - destruct (compiled_query_restores ir nofacts nouser _ _ _ _ _ _ _ Hn) as [_ [_ [A _]]]. apply A; [exact NY|discriminate].
+    pose proof (H n Ln) as Hn. apply Nat.leb_gt in Lk. rewrite Lk in Hn.
+    destruct (compiled_query_restores ir nofacts nouser _ _ _ _ _ _ _ Hn) as [_ [_ [A _]]]. apply A. exact NY.
   Qed.
 
   Lemma lnext_mono_S n h l r : lnext n h l = Some r -> lnext (S n) h l = Some r.
